@@ -99,11 +99,14 @@ class LeanSide:
         f = d / f"{pid}.lean"
         f.write_text("".join(f"import {m}\n" for m in modules)
                      + "".join(f"#print axioms {t}\n" for t in theorems))
+        self.locked()           # no concurrent rebuild while the compiled modules are read
         try:
             p = subprocess.run(["lake", "env", "lean", str(f)], cwd=LEAN,
                                capture_output=True, text=True, timeout=600)
         except subprocess.TimeoutExpired:
             raise Infra("axiom audit timed out")
+        finally:
+            self.unlock()
         out = p.stdout + p.stderr
         res, problems = {}, []
         for m in re.finditer(r"'([^']+)' depends on axioms: \[([^\]]*)\]", out, re.S):
@@ -127,11 +130,14 @@ class LeanSide:
         if not lines:
             return [], ""
         inp = "".join(canon(l) + "\n" for l in lines)
+        self.locked()
         try:
             p = subprocess.run(["lake", "env", "lean", "--run", driver], cwd=LEAN,
                                input=inp, capture_output=True, text=True, timeout=timeout)
         except subprocess.TimeoutExpired:
             raise Infra("model driver timed out")
+        finally:
+            self.unlock()
         out = p.stdout.split("\n")
         if out and out[-1] == "":
             out.pop()
